@@ -56,7 +56,7 @@ def check_verify_fn(ck, F):
         ok = pair_ok and isinstance(acc, Enum) and acc.variant == "Ok" and isinstance(rej, Enum) and rej.variant == "Err"
         why = f"compares {l!r} with {r!r}"
     ck.require(ok, "R10.4", "verify:expected-P", f"verify must accept iff a*b*Q + <a*s*gf,G> + <b*s_rev*hf,H> - <u^2,L> - <u^-2,R> equals the given P; {why}", where)
-    msms = [m for m in I.msm_log if FX.same_fn(m["fn"], path)]
+    msms = list(I.msm_log)  # whole dynamic extent of the verify run
     ck.require(len(msms) == 1 and msms[0]["equal"], "R10.4", "verify:layout", f"bases and scalars of verify's check must have equal segment lengths: {[(str(m['len_bases']), str(m['len_scalars'])) for m in msms]}", where)
 
 
